@@ -678,4 +678,16 @@ example : (evaluatorPairs (G := Nat) (P := Nat) false (fun g => g < 10)
 
 end modes
 
+/-! ## thresholds are handled pointwise -/
+
+/-- **PCK is a pointwise function of the pixel threshold**: entry `k` of the result for a threshold list
+is the PCK of the single threshold `thrs[k]`, whatever the order of the list (descending, shuffled,
+with duplicates) — `pcks[..., k]` belongs to `thresholds[k]`.  The same holds for the rows of the VOC
+block and the list of match thresholds (`vocMetrics` maps `vocRow` over `matchThr`). -/
+theorem pck_pointwise_in_threshold (thrs : List R) (d : List (Option R)) (k : Nat) :
+    (thrs.map (fun t => pckAt (Nat.cast : Nat → R) t d))[k]? =
+      (thrs[k]?).map (fun t => pckAt (Nat.cast : Nat → R) t d) ∧
+    (thrs.map (fun t => d.map (within t)))[k]? = (thrs[k]?).map (fun t => d.map (within t)) :=
+  ⟨List.getElem?_map, List.getElem?_map⟩
+
 end SleapVerif.C16
